@@ -763,13 +763,13 @@ func checkC15(c *Ctx, r *Report) {
 		lf := computeLockFlow(f, heldSet{})
 		ok := len(dels) == 1
 		for _, d := range dels {
-			if !heldSuffix(lf.must[d], "b.lk") {
+			if !heldSuffix(lf.must[d], f.Params[0].Name()+".lk") { // (the receiver, whatever it is called)
 				ok = false
 			}
 		}
 		for _, u := range callsIn(f, "(*sync.RWMutex).Unlock") {
 			ui := u.(ssa.Instruction)
-			if !strings.HasPrefix(pathOf(callArgs(u)[0]), "b.") {
+			if !strings.HasPrefix(pathOf(callArgs(u)[0]), f.Params[0].Name()+".") {
 				continue
 			}
 			if _, deferred := ui.(*ssa.Defer); deferred {
